@@ -17,7 +17,7 @@ from harness import core, paramalg as pa, runfamily as rf
 
 LEVEL = "model_checking"
 
-ACTIONS = ["Grow", "Twin", "Ship", "Build", "MShipDeliver", "MDeliver", "MCall", "MEq", "Clear", "MPickle", "Unpickle", "MCallCopy", "MClearCopy", "MSolve"]
+ACTIONS = ["Grow", "Twin", "Ship", "Konst", "Build", "MShipDeliver", "MIntDeliver", "MDeliver", "MCall", "MEq", "Clear", "MPickle", "Unpickle", "MCallCopy", "MClearCopy", "MSolve"]
 
 
 def neighbours(tree, prev):
@@ -46,13 +46,13 @@ def run(ctx):
     max_level = 3
     ctx.cov["bounds"] = {"ParamAlg": dict(leaves=["P2", "P3", "PT", "int 2", "float 0.5"], operators=["+", "-", "*", "/", "**"],
                                           operator_levels_exhaustive=1 if quick else 2,
-                                          level2_sampled_1_in=mod, deeper_levels=max_level, deeper_sampled_1_in=deep,
+                                          level2_sampled_1_in=mod, twinned_shipped_constant_forms_of_level2_trees_1_in=1 if quick else 5, deeper_levels=max_level, deeper_sampled_1_in=deep,
                                           points=pa.POINTS, times=[t / pa.Q for t in pa.TIMES], Q=pa.Q, Lim=pa.LIM),
                          "mechanism": pa.MECH}
     ctx.cov["exhaustive"] = not quick
     # ---- 1. design: TLC decides the clauses on the specification and exports the trees
     # (thorough: the exhaustive run goes without TLC's coverage instrumentation; vacuity is guarded on a sampled run)
-    r = ctx.model_check("ParamAlg", pa.model_cfg(max_level, mod, ctx.seed, pa.MECH, pa.INVARIANTS + ["Emit"], deep=deep),
+    r = ctx.model_check("ParamAlg", pa.model_cfg(max_level, mod, ctx.seed, pa.MECH, pa.INVARIANTS + ["Emit"], deep=deep, var=1 if quick else 5),
                         name="ParamAlg[C16]", required_actions=ACTIONS if quick else (), timeout=2400, heap="8g")
     if not quick:
         ctx.model_check("ParamAlg", pa.model_cfg(2, 199, ctx.seed, pa.MECH, pa.INVARIANTS), name="ParamAlg[C16, coverage of actions]",
@@ -75,6 +75,8 @@ def run(ctx):
                            (dict(pa.MECH, MReuseEqual=True), "EvalIsPointwise", 1),
                            (dict(pa.MECH, MCacheKeyBuffer=True), "EvalIsPointwise", 1),
                            (dict(pa.MECH, MRampClamp=True), "EvalIsPointwise", 1),
+                           (dict(pa.MECH, MCacheKeyXOnly=True), "EvalIsPointwise", 1),
+                           (dict(pa.MECH, MConstDtype=True), "EvalIsPointwise", 1),
                            (dict(pa.MECH, MEqFlat=True), "EqIsStructural", 2)):
         sw = "/".join(k for k in mech if mech[k] != pa.MECH[k])
         cases.append((f"ParamAlg[{sw} as pinned/mutated, {inv}]", pa.model_cfg(lvl, 211, ctx.seed, mech, [inv]), inv))
@@ -97,7 +99,7 @@ def run(ctx):
     # expressions handed to the solver: the solver domain (3-D leaves, finite operators) and a few that the
     # solver must refuse (a 2-D leaf cannot take the z the solver passes)
     sdom = [it for it in items if it["solver"]]
-    neg = [it for it in items if "P2" in pa.kinds(it["tree"]) and it["level"] <= 2 and not it["twin"] and not it["ship"]]
+    neg = [it for it in items if "P2" in pa.kinds(it["tree"]) and it["level"] <= 2 and not it["twin"] and not it["ship"] and not it["konst"]]
     rnd.shuffle(neg)
     nsolve = 60 if quick else 600
     keep = [it for it in sdom if it["level"] <= 1]
@@ -119,6 +121,18 @@ def run(ctx):
     ndown = sum(1 for it in items if "RD" in pa.kinds(it["tree"]))
     nloop = sum(1 for it in items if "CL" in pa.kinds(it["tree"]))
     ctx.cov["expressions_enumerated"].update({"on_shipped_leaves": nship, "with_ramp_down": ndown, "linear_in_current_loop": nloop})
+    nkonst = sum(1 for it in items if it["konst"])
+    nkc = sum(1 for it in items if pa.kinds(it["tree"]) & {"KC2", "KC3"})
+    nint = sum(1 for tr in traces for e in tr["ev"] if e["ev"] == "deliver" and e["a"] in ("arrI", "i1", "i2"))
+    # deliveries in which only y or only z differs from the content delivered before with the same x at the same time,
+    # on expressions whose caching (time-dependent, operand) leaf filled
+    nyz = sum(1 for tr in traces for e in tr["ev"] if e["ev"] == "deliver" and e["a"] in ("arrY", "arrZ") and e["fill"] and e["obs"]["k"] == "v")
+    ctx.cov["expressions_enumerated"].update({"on_tdgl_Constant": nkonst, "linear_in_complex_Constant": nkc})
+    ctx.cov["deliveries_integer_typed_points"] = nint
+    ctx.cov["deliveries_only_y_or_only_z_changed_on_caching_expressions"] = nyz
+    if nkonst < 30 or nkc < 5 or nint < 300 or nyz < (100 if quick else 3000):
+        raise core.MachineryFailure(f"C16: vacuous: {nkonst} expressions on tdgl.Constant ({nkc} complex), {nint} integer-typed "
+                                    f"deliveries, {nyz} deliveries that change only y or z")
     if nship < 40 or ndown < 10 or nloop < 5:
         raise core.MachineryFailure(f"C16: shipped leaves vacuous: {nship} expressions, {ndown} with a ramp down, {nloop} on a current loop")
     if ntwin < 15 or nflat < 50:
